@@ -93,6 +93,7 @@ def run(ck, fb):
     r01m(ck, fb)
     r01n(ck, fb)
     r01o(ck, fb)
+    r01s(ck, fb)
     ck.borrow('rules.c19', {'R19h': 'R01q'}, 'a request served while the restore is still running is applied on top of a state that is about to be overwritten by it')
     ck.borrow('rules.c20', {'R20g': 'R01p'}, 'a snapshot whose header record is longer than one read chunk must still be readable at start-up, otherwise everything it covers is missing after the restart')
     ck.borrow('rules.c08', {'R08h': 'R01k'}, 'the start-up restore loads the catalogued snapshot whatever the last-applied index says')
@@ -798,3 +799,49 @@ def r01n(ck, fb):
                                'running node decided it' % (x.name.split('::')[-1], comp, f),
                                'rebuilt before the read' if dom else 'kept by %s' % (kept[0].name.split('::')[-1] if kept else ''))
     ck.floor('R01n', 'reads of a rebuilt index by replayed requests', n, 2)
+
+
+SNAPSHOT_FILTERS = {   # builder -> conditions an entry may have to meet to be written (anything else is a dropped entry), with the reason
+    'rnacos::namespace::NamespaceActor::build_snapshot': [
+        (r'is_empty\(\)', 'the default namespace (empty id) is implicit'),
+        (r'BitAnd', 'only user-created namespaces are stored, weak ones are rebuilt from their references (R01l)'),
+        (r'already_sync_from_config', 'the marker record is written once the old data was migrated (R01m)')],
+    'rnacos::naming::core::NamingActor::build_snapshot': [
+        (r'^!?ephemeral$|\.ephemeral$', 'only persistent instances belong to the raft state')],
+}
+
+
+def r01s(ck, fb, R='R01s'):
+    ck.rule(R, 'the snapshot is complete: in every component\'s build_snapshot the per-entry record is written for EVERY entry the iteration yields; '
+               'the only conditions between the iterator and the record are the iteration itself, a map lookup, error propagation (?) and the '
+               'listed per-component filters (namespace: non-default, user-created; naming: persistent). An entry that is left out because of a '
+               'transient mark (a config whose routed value has not been applied yet, ...) is missing - with its history - on every node that '
+               'later restarts from or installs that snapshot')
+    n = 0
+    for b in fb.bodies.values():
+        if not b.name.endswith('::build_snapshot') or b.parent or '::tests::' in b.name:
+            continue
+        aggs = b.aggregates(r'filestore::model::SnapshotRecordDto$')
+        if not aggs:
+            continue
+        ck.analysed(b)
+        allowed = SNAPSHOT_FILTERS.get(b.name, [])
+        for (i, j, st) in aggs:
+            atoms = cfg.guard_atoms(b, i)
+            in_loop = any(a[0] == 'variant' and a[2] == 'Some' and 'Iterator>::next' in cfg.fmt_desc(a[3]) for a in atoms)
+            if not in_loop:
+                continue
+            n += 1
+            extra = []
+            for a in atoms:
+                txt = cfg.fmt_atom(a)
+                if a[0] in ('variant', 'notvariant', 'variantin') and re.search(r'Iterator>::next|Try>::branch|HashMap::<K, V, S, A>::get|BTreeMap::<K, V, A>::get', txt):
+                    continue
+                if any(re.search(rx, txt) for rx, _why in allowed):
+                    continue
+                extra.append(txt)
+            ck.require(not extra, R, '%s:every-entry-written' % b.name.split('::')[-2], b.where(i),
+                       '%s writes an entry to the snapshot only if %s: entries for which that does not hold are not in the snapshot, so a node that '
+                       'restarts from it or is caught up with it serves less (keys, history, type, description) than before' % (b.name, extra),
+                       'unconditional%s' % (' apart from: ' + '; '.join(w for _r, w in allowed) if allowed else ''))
+    ck.floor(R, 'per-entry snapshot records', n, 8)
